@@ -80,8 +80,8 @@ def install(ctx):
 
 
 def plan(tier, seed):
-    n = 60 if tier == "quick" else 2500
-    specs = [{"mode": "synthetic", "n": n, "rseed": seed * 1000 + i, "step": 5 if tier == "quick" else 1} for i in range(14)]
+    n = 60 if tier == "quick" else 700
+    specs = [{"mode": "synthetic", "n": n, "rseed": seed * 1000 + i, "step": 5 if tier == "quick" else 2} for i in range(14)]
     specs += [{"mode": "shipped", "which": w, "n": 120 if tier == "quick" else 5000, "rseed": seed * 1000 + 100 + k}
               for k, w in enumerate(["mex", "nimitz"])]
     return specs
